@@ -204,12 +204,30 @@ Definition c5_chained_fixed (ds : list dt) : bool :=
   existsb (fun p => existsb (fun cid => match find_dt cid ds with Some c => d_fixed c | None => false end)
                             (d_triggers p)) ds.
 Definition c5_sig_loststart (k : kind) (s : c5_ostep) : bool :=
-  c5_chained_fixed (c5_pre s) ||
   match c5_op s with
   | OpResult r =>
-      negb (is_ok k (r_state r))
-      && existsb (fun d => d_fixed d && (d_trigger d =? 0) && c5_inwin (c5_now s) d) (c5_pre s)
-  | OpDtAdd _ fixed _ _ _ trig_by _ _ => fixed && negb (trig_by =? 0)
+      c5_chained_fixed (c5_pre s) ||
+      (negb (is_ok k (r_state r))
+       && existsb (fun d => d_fixed d && (d_trigger d =? 0) && c5_inwin (c5_now s) d) (c5_pre s))
+  | OpDtStartTimer => c5_chained_fixed (c5_pre s)
+  | _ => false
+  end.
+
+(* ... and what the miscount of that finding looks like, so that any other DowntimeStart miscount is reported:
+   DowntimeStart requests are MISSING, exactly one per fixed downtime that became triggered by a non-OK result,
+   at most one per fixed chained downtime that became triggered in a start-timer run *)
+Definition c5_chained_in (id : Z) (ds : list dt) : bool := existsb (fun p => c5_mem id (d_triggers p)) ds.
+Definition c5_loststart_shape (s : c5_ostep) : bool :=
+  let newly := c5_newly (c5_pre s) (c5_post s) in
+  let n := Z.of_nat (length newly) in
+  let cnt := c5_cnt c5_is_start (c5_outs s) in
+  negb (c5_paused s) &&
+  match c5_op s with
+  | OpResult _ =>
+      let lost := Z.of_nat (length (filter d_fixed newly)) in (0 <? lost) && (n - cnt =? lost)
+  | OpDtStartTimer =>
+      let lost := Z.of_nat (length (filter (fun d' => d_fixed d' && c5_chained_in (d_id d') (c5_pre s)) newly)) in
+      (cnt <? n) && (n - cnt <=? lost)
   | _ => false
   end.
 
@@ -239,7 +257,7 @@ Fixpoint c5_model_trace (c : fcfg) (f : full) (h : list (Z * op)) : list c5_oste
 (* which recorded finding explains a failing check (0 = none): 2 lost-start
    (1 was pending-flexible, 3 was start-at-end-instant; both fixed) *)
 Definition c5_explained (k : kind) (s : c5_ostep) (n : Z) : Z :=
-  if (n =? 9) && c5_sig_loststart k s then 2
+  if (n =? 9) && c5_sig_loststart k s && c5_loststart_shape s then 2
   else 0.
 
 (* ---- the oracle: every failing (step index, check number, explaining finding); [] = the trace
